@@ -455,7 +455,8 @@ def cbmc_cmd(spec, goto, unwindset, extra=()):
         cmd += ["--json-ui"]
         # the trace pass runs unsliced: slicing drops kani::any() results the property does not depend on,
         # and the native replay consumes the recorded values strictly in drawing order
-        cmd = [c for c in cmd if c != "--slice-formula"]
+        if os.environ.get("VERIF_TRACE_UNSLICED", "0") == "1":
+            cmd = [c for c in cmd if c != "--slice-formula"]
     return cmd
 
 
@@ -569,18 +570,31 @@ def parse_cbmc_text(path, res):
 
 
 def extract_values(trace):
+    """Inputs in drawing order. Every call of kani::any_raw_internal::<T> yields one slot (the call steps survive
+    formula slicing); the slot is filled from the return-value assignment when the slicer kept it. A slot whose
+    value was sliced away cannot influence the failing property; it gets the default 1 (which satisfies the
+    harnesses' `>= 1` / small-range assumptions) and is marked."""
     vals = []
     for s in trace:
-        if s.get("stepType") != "assignment":
+        st = s.get("stepType")
+        if st == "function-call":
+            name = (s.get("function") or {}).get("displayName", "")
+            if name.startswith("kani::any_raw_internal::<"):
+                vals.append({"type": name[len("kani::any_raw_internal::<"):-1], "value": "1", "sliced": True})
+            continue
+        if st != "assignment":
             continue
         fn = s.get("sourceLocation", {}).get("function", "")
         lhs = s.get("lhs", "")
         if fn.startswith("kani::any_raw_internal::<") and lhs.startswith("goto_symex$$return_value"):
-            ty = fn[len("kani::any_raw_internal::<"):-1]
             b = s.get("value", {}).get("binary")
             if b is None:
                 continue
-            vals.append({"type": ty, "value": str(int(b, 2))})
+            ty = fn[len("kani::any_raw_internal::<"):-1]
+            if vals and vals[-1].get("sliced") and vals[-1]["type"] == ty:
+                vals[-1] = {"type": ty, "value": str(int(b, 2))}
+            else:
+                vals.append({"type": ty, "value": str(int(b, 2))})
     return vals
 
 
